@@ -6,9 +6,9 @@ import ast
 
 from ..dep import signed_leaves
 from ..flow import (Ref, Param, LoopVar, Elt, Phi, Acc, Sym, FuncRef, strip_refs, show, pathkey, same_value, deep_walk,
-                    walk_no_sym, facts_at)
+                    walk_no_sym, facts_at, normalise_fact)
 from ..model import AnalysisError, unparse, walk_no_nested
-from .common import root_of_expr, path_from_param, const_value, floor, call_name, is_call_to, gate_with
+from .common import root_of_expr, path_from_param, const_value, floor, call_name, is_call_to, gate_with, alternatives, leaf_key
 from .c09 import atoms_of, signature, fmt, stage_rules, record_protocol
 from . import targets
 from .. import uscan
@@ -35,7 +35,7 @@ def run(ctx):
         for a, sset in signature(v, sign).items():
             sigs[t.slice.value].setdefault(a, set()).update(sset)
         guards[t.slice.value].append((stmt, st, atoms_of(v)))
-    floor(ctx, 'accumulations into flows', n_aug, 5)
+    floor(ctx, 'accumulations into flows', n_aug, 3)
     want = {'in': {'step.to[1]': {'+'}, 'step.to[0]': {'-'}},
             'out': {'step.frm[0]': {'+'}, 'step.frm[1]': {'-'}, 'step.trash': {'+'}}}
     # a remove step may also be accounted per well as (before - after) of the destination, under `step.trash`
@@ -66,7 +66,7 @@ def run(ctx):
             def on_plate(c):
                 t = strip_refs(c.left)
                 return c.op == 'truth' and isinstance(t, ast.Call) and getattr(t.func, 'id', '') == 'isinstance' and \
-                    'Plate' in unparse(t.args[1].orig if hasattr(t.args[1], 'orig') else t.args[1])
+                    unparse(t.args[1].orig if hasattr(t.args[1], 'orig') else t.args[1]) == 'Plate'
             if not gate_with(st, on_plate):
                 continue
             v = ff.resolve(stmt.value, st)
@@ -82,9 +82,14 @@ def run(ctx):
             sides = {a.split('[')[0] for a in at if '[' in a} or ({'step.to'} if 'step.trash' in at else set())
             for side in sorted(sides):
                 def same_object(c, side=side):
-                    return c.op == 'eq' and any(isinstance(n, ast.Attribute) and n.attr == 'name' and
-                                                getattr(n.value, 'pkey', None) == f"{side}[0]" for n in deep_walk(c.left)) \
-                        and any(isinstance(n, Param) for n in deep_walk(c.right))
+                    def is_rec(x):
+                        return any(isinstance(n, ast.Attribute) and n.attr == 'name' and
+                                   getattr(strip_refs(n.value), 'pkey', None) == f"{side}[0]" for n in deep_walk(x))
+
+                    def is_query(x):
+                        return any(isinstance(n, Param) for n in deep_walk(x, follow_refs=False))
+                    return c.op == 'eq' and c.right is not None and \
+                        ((is_rec(c.left) and is_query(c.right)) or (is_rec(c.right) and is_query(c.left)))
                 g = gate_with(st, same_object)
                 ctx.ob('C15.R1', fi, stmt.lineno, f"flows['{k}'] term from `{side.replace('step.', '')}` is counted only for "
                                                   f"the queried object", bool(g), fact=str(g[0]) if g else 'no name test',
@@ -99,29 +104,44 @@ def run(ctx):
     # get_amount_remaining: mode/index agreement
     gi = model.func('Recipe.get_amount_remaining')
     gf = ctx.flow(gi.qualname)
-    picks = []
-    for stmt in walk_no_nested(gi.node):
-        if isinstance(stmt, ast.Assign) and isinstance(stmt.value, ast.Subscript) and id(stmt) in gf.pre and \
-                isinstance(stmt.value.slice, ast.Constant) and unparse(stmt.value.value) in ('step.to', 'step.frm'):
-            after = None
-            for c in facts_at(gf.state_before(stmt)):
-                if c.op in ('eq', 'ne') and any(const_value(x) == 'after' for x in (c.left, c.right) if x is not None):
-                    after = c.op == 'eq'
-            picks.append((stmt, unparse(stmt.value.value), stmt.value.slice.value, after))
+    # the object whose amounts are reported: every way it can be chosen (nested ifs, conditional expressions,
+    # an index or a record picked into a variable first), with the conditions of each choice
+    picks = {}
+    for ex in gf.normal_exits():
+        if ex.kind != 'return' or ex.value is None:
+            continue
+        for n in deep_walk(ex.value):
+            if not (isinstance(n, ast.Attribute) and n.attr in ('contents', 'wells')):
+                continue
+            for conds, leaf in alternatives(gf, n.value):
+                k = leaf_key(leaf)
+                if k is None or not (k.startswith('step.to[') or k.startswith('step.frm[')):
+                    continue
+                side, idx = k.split('[')[0], k.split('[')[1].rstrip(']')
+                after, dest = set(), set()
+                for f in conds:
+                    for c in normalise_fact(f):
+                        if c.op in ('eq', 'ne') and any(const_value(x) == 'after' for x in (c.left, c.right) if x is not None):
+                            after.add(c.op == 'eq')
+                        if c.op in ('eq', 'ne') and c.right is not None and any(
+                                isinstance(m, ast.Attribute) and m.attr == 'name' and getattr(m.value, 'pkey', None) == 'step.to[0]'
+                                for x in (c.left, c.right) for m in deep_walk(x)):
+                            dest.add(c.op == 'eq')
+                a_ = next(iter(after)) if len(after) == 1 else None
+                d_ = next(iter(dest)) if len(dest) == 1 else None
+                picks.setdefault((side, idx, a_, d_), getattr(leaf, 'lineno', ex.line))
     floor(ctx, 'record picks in get_amount_remaining', len(picks), 4)
-    for stmt, side, idx, after in picks:
-        ok = after is not None and idx == (1 if after else 0)
-        ctx.ob('C15.R1', gi, stmt.lineno, f"mode {'after' if after else 'before'} picks index {1 if after else 0} of {side}",
+    for (side, idx, after, dest), line in sorted(picks.items(), key=str):
+        ok = after is not None and idx == ('1' if after else '0')
+        ctx.ob('C15.R1', gi, line, f"mode {'after' if after else 'before'} picks index {1 if after else 0} of {side}",
                ok, fact=f"picks {side}[{idx}] under mode == 'after': {after}", why='the state before/after is confused',
                key=f"mode index {side}")
     # the to-side is taken iff the queried object is the step's destination
-    for stmt, side, idx, after in picks:
-        names = [c for c in facts_at(gf.state_before(stmt)) if c.op in ('eq', 'ne') and
-                 any(isinstance(n, ast.Attribute) and n.attr == 'name' and getattr(n.value, 'pkey', None) == 'step.to[0]'
-                     for x in (c.left, c.right) if x is not None for n in deep_walk(x))]
-        ok = bool(names) and (names[0].op == 'eq') == (side == 'step.to')
-        ctx.ob('C15.R1', gi, stmt.lineno, f"{side} is read when the queried object {'is' if side == 'step.to' else 'is not'} "
-                                          f"the step's destination", ok, fact=str(names[0]) if names else 'no name test',
+    for (side, idx, after, dest), line in sorted(picks.items(), key=str):
+        ok = dest is not None and dest == (side == 'step.to')
+        ctx.ob('C15.R1', gi, line, f"{side} is read when the queried object {'is' if side == 'step.to' else 'is not'} "
+                                   f"the step's destination", ok,
+               fact=f"{side}[{idx}] chosen under `step.to[0].name == <queried>.name` being {dest}",
                why='the amount of the wrong object is reported', key=f"side selection {side}")
     revs = [c for c, s, b in gf.calls if isinstance(c.func, ast.Name) and c.func.id == 'reversed']
     rev_ok = False
@@ -230,4 +250,4 @@ def t5(ctx):
                                            f"{'numeric result needs otypes' if numeric else 'no warm-up call'}", ok,
                    fact=f"keywords {sorted(kws)}", why=why,
                    key=f"vectorize without otypes: {unparse(fn, 30)}" if numeric else f"vectorize without cache: {unparse(fn, 30)}")
-    floor(ctx, 'numpy.vectorize call sites', n, 8)
+    floor(ctx, 'numpy.vectorize call sites', n, 3)
